@@ -58,7 +58,7 @@ pub fn run(tier: Tier) -> i32 {
     }
     // ---------------------------------------------------------------- E4 accumulating
     {
-        let lmax = tier.pick(8usize, 11usize);
+        let lmax = tier.pick(8usize, 12usize);
         let name = format!("E4/accumulating/history<={}", lmax);
         if ctx.may_start(&name) {
             let t0 = Instant::now();
